@@ -3,9 +3,13 @@
 //!
 //! Case line: `<entries> | <hex line>` where `<entries>` is a blank-separated list of
 //! `name:n:<hex value>` (ordinary alias) / `name:g:<hex value>` (global alias).
-//! Observation (impl): `ok <hex of the substituted text>` — the content of the real lexer's character
-//! buffer after every command line was parsed with the aliases (`Lexer::source_string`) — or
-//! `syntax-error` / `TIMEOUT`.
+//! Observation (impl): `ok <hex of the substituted text> T=<final alias table>` — the content of the real
+//! lexer's character buffer after every command line was parsed with the aliases
+//! (`Lexer::source_string`) — or `syntax-error` / `TIMEOUT`.
+//! Like `read_eval_loop`, the harness parses one command line at a time on ONE lexer and, before parsing
+//! the next, executes the line's bare `alias …` / `unalias …` simple commands with the REAL built-ins on a
+//! real (virtual) `Env` whose alias set is the parser's glossary: the table changes while a multi-line
+//! replacement is still being read.  No other command is executed.
 //! Oracle (real code only): the substituted text, parsed again by the real parser WITHOUT aliases, must
 //! print the same command lists as the parse with aliases ("the commands executed equal those obtained
 //! by performing the textual substitutions by hand"); every word of the result that came out of an
@@ -14,7 +18,11 @@
 use futures_util::FutureExt as _;
 use std::cell::Cell;
 use std::rc::Rc;
-use yash_syntax::alias::{Alias, AliasSet, Glossary, HashEntry};
+use yash_env::Env;
+use yash_env::builtin::Builtin;
+use yash_env::builtin::Type::Mandatory;
+use yash_semantics::command::Command as _;
+use yash_syntax::alias::{Alias, Glossary, HashEntry};
 use yash_syntax::parser::Parser;
 use yash_syntax::parser::lex::Lexer;
 use yash_syntax::source::{Location, Source};
@@ -23,23 +31,28 @@ use yverif::rng::Rng;
 
 /// Glossary with a step budget: every substitution needs a look-up, so an endless substitution
 /// exhausts the budget (reported as `TIMEOUT`).
-#[derive(Debug)]
-struct Budgeted {
-    set: AliasSet,
-    left: Cell<usize>,
+struct Budgeted<'a, S> {
+    env: &'a Env<S>,
+    left: &'a Cell<usize>,
 }
 
-impl Glossary for Budgeted {
+impl<S> std::fmt::Debug for Budgeted<'_, S> {
+    fn fmt(&self, f: &mut std::fmt::Formatter<'_>) -> std::fmt::Result {
+        write!(f, "Budgeted({})", self.left.get())
+    }
+}
+
+impl<S> Glossary for Budgeted<'_, S> {
     fn look_up(&self, name: &str) -> Option<Rc<Alias>> {
         let n = self.left.get();
         if n == 0 {
             panic!("BUDGET");
         }
         self.left.set(n - 1);
-        self.set.look_up(name)
+        self.env.aliases.look_up(name)
     }
     fn is_empty(&self) -> bool {
-        self.set.is_empty()
+        self.env.aliases.is_empty()
     }
 }
 
@@ -75,16 +88,49 @@ fn show_case(es: &[Entry], line: &str) -> String {
     format!("{} | {}", t.join(" "), enc_str(line))
 }
 
-fn alias_set(es: &[Entry]) -> AliasSet {
-    #[allow(clippy::mutable_key_type)]
-    let mut s = AliasSet::new();
+fn new_env(es: &[Entry]) -> Env<impl yash_semantics::Runtime + 'static> {
+    let mut env = Env::new_virtual();
+    env.builtins.insert(
+        "alias",
+        Builtin::new(Mandatory, |env, args| Box::pin(yash_builtin::alias::main(env, args))),
+    );
+    env.builtins.insert(
+        "unalias",
+        Builtin::new(Mandatory, |env, args| Box::pin(yash_builtin::unalias::main(env, args))),
+    );
     for e in es {
         // the first definition of a name wins (the model's table look-up is `find?`)
-        if s.get(e.name.as_str()).is_none() {
-            s.insert(HashEntry::new(e.name.clone(), e.value.clone(), e.global, Location::dummy("def")));
+        if env.aliases.get(e.name.as_str()).is_none() {
+            env.aliases
+                .insert(HashEntry::new(e.name.clone(), e.value.clone(), e.global, Location::dummy("def")));
         }
     }
-    s
+    env
+}
+
+/// The bare `alias …` / `unalias …` simple commands of a command line (top-level items that are one
+/// simple command without assignments, redirections, `!`, `|`, `&&`, `||`, `&`).
+fn alias_commands(list: &yash_syntax::syntax::List) -> Vec<Rc<yash_syntax::syntax::Command>> {
+    use yash_syntax::syntax::Command;
+    let mut v = vec![];
+    for item in &list.0 {
+        let ao = &item.and_or;
+        if item.async_flag.is_some() || !ao.rest.is_empty() || ao.first.negation || ao.first.commands.len() != 1 {
+            continue;
+        }
+        if let Command::Simple(sc) = &*ao.first.commands[0] {
+            if sc.assigns.is_empty() && sc.redirs.is_empty() {
+                if let Some((w, _)) = sc.words.first() {
+                    use yash_syntax::syntax::MaybeLiteral as _;
+                    let name = w.to_string_if_literal();
+                    if name.as_deref() == Some("alias") || name.as_deref() == Some("unalias") {
+                        v.push(Rc::clone(&ao.first.commands[0]));
+                    }
+                }
+            }
+        }
+    }
+    v
 }
 
 struct Parsed {
@@ -94,6 +140,10 @@ struct Parsed {
     text: String,
     /// origin chains (innermost first) of all words of simple commands found in the result
     chains: Vec<Vec<String>>,
+    /// the alias table at the end, sorted by name
+    table: String,
+    /// all alias names ever defined
+    names: Vec<String>,
 }
 
 fn chain_of(loc: &Location) -> Vec<String> {
@@ -126,22 +176,42 @@ fn collect_chains(list: &yash_syntax::syntax::List, out: &mut Vec<Vec<String>>) 
     }
 }
 
-fn real_parse(es: &[Entry], line: &str, budget: usize) -> Parsed {
-    let g = Budgeted { set: alias_set(es), left: Cell::new(budget) };
+fn real_parse(es: &[Entry], line: &str, budget: usize, exec: bool) -> Parsed {
+    let mut env = new_env(es);
+    let left = Cell::new(budget);
     let mut lexer = Lexer::with_code(line);
     let mut printed = Some(vec![]);
     let mut chains = vec![];
+    let mut names: Vec<String> = env.aliases.iter().map(|e| e.0.name.clone()).collect();
+    let mut rounds = 0usize;
     loop {
-        let r = Parser::config()
-            .aliases(&g)
-            .input(&mut lexer)
-            .command_line()
-            .now_or_never()
-            .expect("memory input never blocks");
+        rounds += 1;
+        if rounds > 3000 {
+            panic!("BUDGET");
+        }
+        let r = {
+            let g = Budgeted { env: &env, left: &left };
+            Parser::config()
+                .aliases(&g)
+                .input(&mut lexer)
+                .command_line()
+                .now_or_never()
+                .expect("memory input never blocks")
+        };
         match r {
             Ok(Some(list)) => {
                 collect_chains(&list, &mut chains);
                 printed.as_mut().unwrap().push(list.to_string());
+                if exec {
+                    for c in alias_commands(&list) {
+                        let _ = c.execute(&mut env).now_or_never().expect("built-in never blocks");
+                    }
+                    for e in env.aliases.iter() {
+                        if !names.contains(&e.0.name) {
+                            names.push(e.0.name.clone());
+                        }
+                    }
+                }
             }
             Ok(None) => break,
             Err(_) => {
@@ -151,7 +221,18 @@ fn real_parse(es: &[Entry], line: &str, budget: usize) -> Parsed {
         }
     }
     let text = lexer.source_string(0..lexer.index());
-    Parsed { printed, text, chains }
+    let mut t: Vec<String> = env
+        .aliases
+        .iter()
+        .map(|e| format!("{}:{}:{}", enc_str(&e.0.name), if e.0.global { "g" } else { "n" }, enc_str(&e.0.replacement)))
+        .collect();
+    t.sort_by(|a, b| {
+        let ka = dec_str(a.split(':').next().unwrap()).unwrap();
+        let kb = dec_str(b.split(':').next().unwrap()).unwrap();
+        ka.cmp(&kb)
+    });
+    let table = if t.is_empty() { "-".to_string() } else { t.join(",") };
+    Parsed { printed, text, chains, table, names }
 }
 
 fn show_printed(p: &Option<Vec<String>>) -> String {
@@ -167,18 +248,13 @@ fn run_case(case: &str) -> (String, String) {
     };
     let mut oracle = String::from("-");
     let obs = guarded(|| {
-        let p = real_parse(&es, &line, 4000);
+        let p = real_parse(&es, &line, 4000, true);
         match &p.printed {
             None => "syntax-error".to_string(),
             Some(_) => {
                 // the property statement on the real code: hand-substituted text == alias parse
-                let q = real_parse(&[], &p.text, 10);
-                let names: Vec<&str> = {
-                    let mut v: Vec<&str> = es.iter().map(|e| e.name.as_str()).collect();
-                    v.sort();
-                    v.dedup();
-                    v
-                };
+                let q = real_parse(&[], &p.text, 10, false);
+                let names = &p.names;
                 oracle = if q.printed != p.printed {
                     format!(
                         "FAIL:reparse-differs[{}]vs[{}]",
@@ -195,7 +271,7 @@ fn run_case(case: &str) -> (String, String) {
                 } else {
                     "ok".into()
                 };
-                format!("ok {}", enc_str(&p.text))
+                format!("ok {} T={}", enc_str(&p.text), p.table)
             }
         }
     });
@@ -395,10 +471,10 @@ fn main() {
         println!("case   : {case}");
         println!("obs    : {obs}");
         if let Some(h) = obs.strip_prefix("ok ") {
-            println!("text   : {:?}", dec_str(h).unwrap());
+            println!("text   : {:?}", dec_str(h.split(' ').next().unwrap()).unwrap());
         }
         println!("oracle : {oracle}");
-        let p = guarded(|| show_printed(&real_parse(&es, &line, 4000).printed));
+        let p = guarded(|| show_printed(&real_parse(&es, &line, 4000, true).printed));
         println!("printed: {p}");
         return;
     }
@@ -611,6 +687,91 @@ fn main() {
         for l in n_lines.iter() {
             let ns: Vec<&str> = (0..4).map(|_| *r.pick(names)).collect();
             out(&t, &render(l, &ns));
+        }
+    }
+
+    // (6) the table changes while a replacement is still being read: multi-line values and lines that run
+    // `alias` / `unalias` (executed by the real built-ins between command lines); the recursion guard must be
+    // about NAMES (redefinition, unalias + re-alias under the same name, definitions of other names)
+    let small = |r: &mut Rng| -> String {
+        let m = *r.pick(names);
+        match r.below(9) {
+            0 => "x".to_string(),
+            1 => "y ".to_string(),
+            2 => m.to_string(),
+            3 => format!("{m} "),
+            4 => "'x y'".to_string(),
+            5 => format!("\"{m} z\""),
+            6 => String::new(),
+            7 => "r=1".to_string(),
+            _ => format!("'{m} {m} '"),
+        }
+    };
+    let v_tpl = [
+        "alias {n}={v}\n{n} y",
+        "alias {n}={v}\n{m} {n}",
+        "unalias {n}\n{n}",
+        "unalias {n}\nalias {n}={v}\n{n} z",
+        "alias {m}={n}\n{m}",
+        "alias {n}={v}; {n}\n{n}",
+        "x\nalias {n}={v}\n{n}",
+        "unalias -a\n{n} {m}",
+        "alias {n}={v} {m}={w}\n{n} {m}",
+        "alias {n}={v} &\n{n}",
+        "! alias {n}={v}\n{n}",
+        "alias {n}={v} | x\n{n}",
+        "{ alias {n}={v}\n{n}; }",
+        "if alias {n}={v}; then {n}; fi\n{n}",
+        "alias {n}={v} > f\n{n}",
+        "v=1 alias {n}={v}\n{n}",
+        "alias {n}={v} \\\n{m}={w}\n{n} {m}",
+        "alias {n}={v} &&\nalias {m}={w}\n{n} {m}",
+        "alias {n}={v}\nalias {n}={w}\n{n}",
+        "{m}\nalias {m}={v}\n{m} {n}",
+        "alias {n}={v}\n\n  {n} # {m}\n{m}",
+        "unalias {m} {n}\n{n}; {m}",
+        "alias {n}={v}",
+        "alias {n}={v}\n",
+        "{m} ",
+        "x ",
+    ];
+    let l_tpl = [
+        "{0}",
+        "{0}\n{1}",
+        "{0}; {1}",
+        "{0} {1}\n{0}",
+        "alias {0}={v}\n{0}",
+        "alias {0}='alias {0}={v}\n{0}'\n{0}",
+        "alias {0}='alias {0}=\"r=redefined\"\n{0}'\n{0}\n",
+        "unalias {0}\n{0} {1}",
+        "alias {0}={1}; {0}\n{0}",
+        "{0}\n{0}\n{1}",
+        "x {0}\n{1}",
+        "alias {0}={v} {1}={w}\n{0} {1}\nunalias {0}\n{0} {1}",
+        "{0} &&\n{1}\n{0}",
+        "if {0}; then {1}; fi\n{0}",
+    ];
+    let fill = |tpl: &str, r: &mut Rng, n: &str, m: &str| -> String {
+        let v = small(r);
+        let w = small(r);
+        tpl.replace("{n}", n).replace("{m}", m).replace("{v}", &v).replace("{w}", &w)
+    };
+    let nr = if o.thorough() { 6000 } else { 220 };
+    for _ in 0..nr {
+        let mut r = rng.fork();
+        let mut t = vec![];
+        for n in names {
+            if r.chance(1, 5) {
+                continue;
+            }
+            let m = *r.pick(names);
+            let value = if r.chance(3, 4) { fill(r.pick(&v_tpl), &mut r, n, m) } else { r.pick(&core).clone() };
+            t.push(Entry { name: n.to_string(), global: r.chance(1, 12), value });
+        }
+        for l in l_tpl.iter() {
+            let ns: Vec<&str> = (0..4).map(|_| *r.pick(names)).collect();
+            let l2 = fill(l, &mut r, ns[0], ns[1]);
+            out(&t, &render(&l2, &ns));
         }
     }
 }
